@@ -50,7 +50,7 @@ CHILD_FOR_TYPE = {"bbA": ["ch1", "ch5", "ch4", "ch4"], "bbB": ["ch2"], "bbC": ["
 
 BASE_NAMES = ["a", "b", "c", "d", "e", "f", "g", "h"]
 ODD_NAMES = ["3x", "u.y", "u.a", "u_a", "u_b", "u_y", "v_q", "v_b", "u_k", "zz", ""]
-INSTS = ["u", "v", "u_k", "m", "r", "t", "3i"]
+INSTS = ["u", "v", "u_k", "m", "r", "t", "3i", "u.k"]     # "u.k": its pins u.k.<p> can coincide with pin k.<p> of instance u
 TYPES = ["and", "nand", "or", "nor", "xor", "xnor", "buf", "not", "input", "0", "1", "x"]
 
 
@@ -554,6 +554,10 @@ def run(case, ctx):
         if op[0] == "remove":
             for n in _aslist(op[1]):
                 if "." in n:
+                    # every recorded instance that has a pin of this name loses it (names with dots are ambiguous)
+                    for i in bbs_before:
+                        if n.startswith(i + "."):
+                            exempt.add(i)
                     exempt.add(n.split(".")[0])
         if op[0] == "add_subcircuit" and op[1] == "self":
             # the copy of an instance whose pin the caller removed inherits the exemption
@@ -569,7 +573,8 @@ def run(case, ctx):
         # I1-I5 wiring, I6 pins
         for rule, n, msg in ref.wiring_violations(snap, pins=True):
             if rule.startswith("I6"):
-                inst = n.split(".")[0]
+                # the instance the pin belongs to (instance and pin names may contain dots themselves)
+                inst = msg.rsplit("of instance ", 1)[-1]
                 if inst in exempt:
                     continue
                 ctx.violate(f"C07.{rule[:2]}", f"step {step} {op}: after {outcome}: {n}: {msg}",
